@@ -280,7 +280,39 @@ def _rigged_plan(s, pol, rng):
     avail = {repr(c) for c in s.get_dealable_cards()}
     ranks = [r for r in RANKS if any(r + x in avail for x in 'cdhs')]
     kind = rng.choice(['sf', 'sf', 'quads', 'flush', 'straight', 'full',
-                       'wheel', 'trips', 'royal', 'quadsA', 'mono', 'mono'])
+                       'wheel', 'trips', 'royal', 'quadsA', 'mono', 'mono',
+                       'mirror'])
+    if kind == 'mirror':
+        # rank-mirrored double-suited holdings (As Ks Ah Kh): the two-card
+        # combinations of such a hand repeat the same ranks in different
+        # suits; the board is three to five cards of one of those suits
+        left = set(avail)
+        holes = []
+        for i in range(s.player_count):
+            h = []
+            for _ in range(20):
+                a, b = rng.sample(ranks, 2)
+                x, y = rng.sample('cdhs', 2)
+                cand = [a + x, b + x, a + y, b + y]
+                if all(c in left for c in cand):
+                    h = cand
+                    left -= set(cand)
+                    break
+            holes.append(h)
+        extra = sorted(left)
+        rng.shuffle(extra)
+        for h in holes:
+            while len(h) < 7 and extra:
+                h.append(extra.pop())
+        suit = rng.choice('cdhs')
+        flush = [c for c in extra if c[1] == suit]
+        board = flush[:rng.randint(3, 5)]
+        board += [c for c in extra if c not in board][:15]
+        lead = board[:5]
+        rng.shuffle(lead)
+        plan = {'kind': kind, 'board': lead + board[5:], 'holes': holes}
+        pol['_plan'] = plan
+        return plan
     if kind == 'mono':
         # degenerate holdings: every player's cards are of ONE suit (badugi
         # one-card hands, lowball flushes, boards nobody connects with);
